@@ -50,6 +50,8 @@ type Engine struct {
 	allFuncs    []*ssa.Function
 	loadMs      int64
 	pureCache   map[*ssa.Function]bool
+	implCache   map[*ssa.Function]*FuncContract
+	skipped     []string
 }
 
 var repoPkgPaths = []string{"gorm.io/gorm", "gorm.io/gorm/clause", "gorm.io/gorm/callbacks", "gorm.io/gorm/schema", "gorm.io/gorm/utils", "gorm.io/gorm/migrator"}
@@ -150,6 +152,32 @@ func (e *Engine) contractFor(fn *ssa.Function) *FuncContract {
 		return nil
 	}
 	return e.contracts.Funcs[fn.Pkg.Pkg.Path()+" "+e.keyOf(fn)]
+}
+
+// ifaceContractOfImpl: a /repo method that implements an interface method under contract may be
+// called statically by that contract (the implementation is itself verified against it).
+func (e *Engine) ifaceContractOfImpl(fn *ssa.Function) *FuncContract {
+	if e.implCache == nil {
+		e.implCache = map[*ssa.Function]*FuncContract{}
+		var keys []string
+		for k := range e.contracts.Ifaces {
+			keys = append(keys, k)
+		}
+		sort.Strings(keys)
+		for _, k := range keys {
+			fc := e.contracts.Ifaces[k]
+			parts := strings.SplitN(fc.Key, ".", 2)
+			if len(parts) != 2 {
+				continue
+			}
+			for _, impl := range e.implementations(fc.PkgPath, parts[0], parts[1]) {
+				if _, dup := e.implCache[impl]; !dup {
+					e.implCache[impl] = fc
+				}
+			}
+		}
+	}
+	return e.implCache[fn]
 }
 
 func (e *Engine) externFor(fn *ssa.Function) *FuncContract {
@@ -542,6 +570,11 @@ func (e *Engine) autoPure(fn *ssa.Function) bool {
 				}
 				callee := i.Call.StaticCallee()
 				if callee == nil {
+					if i.Call.IsInvoke() {
+						if ic := e.ifaceContract(i.Call.Value.Type(), i.Call.Method.Name()); ic != nil && ic.Pure {
+							continue
+						}
+					}
 					pure = false
 					continue
 				}
